@@ -42,7 +42,11 @@ class Pack:
 
     # -- registration --------------------------------------------------------------
     def add(self, c):
-        self.contracts[(c.file, c.qualname) if not c.variant else (c.file, c.qualname, c.variant)] = c
+        key = (c.file, c.qualname) if not c.variant else (c.file, c.qualname, c.variant)
+        if key in self.contracts:
+            # a second contract under the same name would silently replace (weaken) the first one
+            raise ValueError("duplicate contract %r in pack %s: give it a variant name" % (key, getattr(self, "name", "?")))
+        self.contracts[key] = c
         if c.file not in self.files:
             self.files.append(c.file)
             m = SourceModule.get(c.file)
